@@ -47,7 +47,7 @@ CONSTANTS
     MaxLen,     \* ledgers of 0..MaxLen directives
     Keys,       \* sequence of metadata keys looked up by meta() & co
     Mech,       \* "ok" = the iteration as shipped;  "skipfirst" / "rowidperentry" / "updateinplace" / "foldcase" /
-                \* "firstcommodity" / "listedopen" = deliberately broken (non-vacuity)
+                \* "firstcommodity" / "listedopen" / "publicmeta" = deliberately broken (non-vacuity)
     MaxStmts,   \* statements executed one after the other on the one connection
     QualOpts    \* the FROM qualifiers a statement on the default table may carry: a set of Qual records
 
@@ -108,6 +108,15 @@ SetCell(o) == IF IsNull(o) THEN NULL ELSE Some(Range(o[1]))   \* tags / links: o
    are three different keys, may sit side by side in one dictionary with different values, and a lookup with a key
    that differs from a present one in the case of a letter only is a lookup of a MISSING key (NULL).  Lower is used
    by the deliberately broken lookup mechanism only (Mech = "foldcase", part 2). *)
+(* The dictionary of a directive / posting is presented WHOLE.  Beancount itself writes keys into it -- booking leaves
+   "__tolerances__" (a map currency -> number, MV type "map") on every transaction, interpolation "__automatic__" /
+   "__residual__" on the postings it filled in, plugins any "__key__" -- and these are keys of THE metadata like any
+   other: the statement makes no exception ("every column equals the corresponding attribute", "NULL for missing
+   keys").  IsOwnKey is used by the deliberately broken meta column only (ColMeta with Mech = "publicmeta", part 2). *)
+IsOwnKey(k) == Len(k) >= 2 /\ SubSeq(k, 1, 2) = "__"
+ColMeta(ometa) ==
+    IF Mech = "publicmeta" /\ ~IsNull(ometa) THEN Some(SelectSeq(ometa[1], LAMBDA kv : ~IsOwnKey(kv[1]))) ELSE ometa
+
 UpperChars == <<"A", "B", "C", "D", "E", "F", "G", "H", "I", "J", "K", "L", "M", "N", "O", "P", "Q", "R", "S", "T", "U",
                 "V", "W", "X", "Y", "Z">>
 LowerChars == <<"a", "b", "c", "d", "e", "f", "g", "h", "i", "j", "k", "l", "m", "n", "o", "p", "q", "r", "s", "t", "u",
@@ -505,8 +514,13 @@ Spec == Init /\ [][Next]_vars
 (* the rows the consumer saw *)
 MechRows ==
     CASE tab = "build" -> <<>>
-      [] tab = "postings" -> [n \in 1..Len(emitted) |-> PostingRow(L, emitted[n].entry, emitted[n].posting, Keys)]
-      [] tab = "entries" -> [n \in 1..Len(emitted) |-> EntryRow(L, emitted[n].entry, Keys)]
+      [] tab = "postings" ->
+            [n \in 1..Len(emitted) |->
+                [PostingRow(L, emitted[n].entry, emitted[n].posting, Keys)
+                    EXCEPT !.meta = OptMetaCell(ColMeta(L[emitted[n].entry].postings[emitted[n].posting].meta))]]
+      [] tab = "entries" ->
+            [n \in 1..Len(emitted) |->
+                [EntryRow(L, emitted[n].entry, Keys) EXCEPT !.meta = OptMetaCell(ColMeta(Some(L[emitted[n].entry].meta)))]]
       [] tab = "accounts" ->
             {[account |-> dir[n][1], open |-> Opt0(dir[n][2]), close |-> Opt0(dir[n][3]),
               open_date |-> IF dir[n][2] = 0 THEN NULL ELSE Some(L[dir[n][2]].date),
@@ -524,6 +538,10 @@ MechRows ==
    of the dictionary for THE key as it was typed in the query (Mech = "foldcase": the key is lower-cased first --
    deliberately broken, "keys are lower case anyway").  A dictionary that is None gives None whatever the default;
    a key that is present with the value None gives None, not the default. *)
+(* the `meta` column of #postings / #entries: context.posting.meta / context.entry.meta -- the dictionary object itself
+   (Mech = "publicmeta": a copy without the keys Beancount wrote itself, "they are not part of the ledger" -- deliberately
+   broken; meta(k) and any_meta(k) read THIS column, entry_meta(k) reads the `entry` column and the directive's attribute):
+   ColMeta, defined with IsOwnKey above *)
 KeyAsUsed(k) == IF Mech = "foldcase" THEN Lower(k) ELSE k
 RECURSIVE ScanGet(_, _, _, _)
 ScanGet(meta, k, n, default) ==        \* the pair written last wins, as in a dict built from the pairs
@@ -547,8 +565,8 @@ CommoditySlot(M, c, n) ==      \* the commodity directive stored for currency c 
 MechLookup(M, i, j, k) ==
     LET t == M[i] p == t.postings[j]
         o == Opt0(OpenSlot(M, p.acct, Len(M))) c == Opt0(CommoditySlot(M, p.u.c, Len(M)))
-    IN  [m |-> DictGet(p.meta, k, NULL), em |-> DictGet(Some(t.meta), k, NULL),
-         am |-> DictGet(p.meta, k, DictGet(Some(t.meta), k, NULL)),
+    IN  [m |-> DictGet(ColMeta(p.meta), k, NULL), em |-> DictGet(Some(t.meta), k, NULL),
+         am |-> DictGet(ColMeta(p.meta), k, DictGet(Some(t.meta), k, NULL)),
          om |-> IF IsNull(o) THEN NULL ELSE DictGet(Some(M[o[1]].meta), k, NULL),
          cm |-> IF IsNull(c) THEN NULL ELSE DictGet(Some(M[c[1]].meta), k, NULL)]
 
@@ -643,6 +661,10 @@ NullLaws ==
         LET t == M[ps[n][1]] p == t.postings[ps[n][2]] r == PostingRow(M, ps[n][1], ps[n][2], Keys) IN
         /\ IsNull(p.meta) => /\ IsNull(r.filename) /\ IsNull(r.lineno) /\ IsNull(r.location) /\ IsNull(r.meta)
                              /\ \A q \in 1..Len(Keys) : IsNull(r.lk[q].m) /\ IsNull(r.lk[q].am_alt)
+        \* the meta column is the whole dictionary: every pair of it, the ones Beancount wrote itself included
+        /\ ~IsNull(p.meta) => /\ ~IsNull(r.meta)
+                              /\ \A q \in 1..Len(p.meta[1]) : p.meta[1][q] \in r.meta[1]
+                              /\ Cardinality(r.meta[1]) = Len(p.meta[1])
         /\ IsNull(p.cost) => IsNull(r.cost_number) /\ IsNull(r.cost_currency) /\ IsNull(r.cost_date)
                              /\ IsNull(r.position.cost) /\ IsNull(r.cost_label_alt)
         /\ ~IsNull(p.cost) => r.cost_label = r.cost_label_alt /\ r.cost_currency = Some(r.weight.c)
@@ -652,7 +674,9 @@ NullLaws ==
               LET k == Keys[q] x == r.lk[q]
                   inP == ~IsNull(p.meta) /\ HasKey(p.meta[1], k)
                   inT == HasKey(t.meta, k)
-              IN /\ ~inP => IsNull(x.m)                              \* missing key
+              IN /\ inP => x.m = Val(RawGet(p.meta[1], k))            \* a present key -- whoever wrote it -- is found
+                 /\ inT => x.em = Val(RawGet(t.meta, k))
+                 /\ ~inP => IsNull(x.m)                              \* missing key
                  /\ ~inT => IsNull(x.em)
                  /\ (~inP /\ ~inT) => IsNull(x.am)
                  /\ inP => x.am = x.m                                 \* the posting first ...
